@@ -116,10 +116,10 @@ func ParsePackets(data []byte) ([]Packet, error) {
 
 // Length styles for BuildPacket.
 const (
-	LenNew1 = iota // one-octet (body < 192)
-	LenNew2        // two-octet (192..8383)
-	LenNew5        // five-octet
-	LenPartial     // partial body lengths, chunks given by the caller
+	LenNew1    = iota // one-octet (body < 192)
+	LenNew2           // two-octet (192..8383)
+	LenNew5           // five-octet
+	LenPartial        // partial body lengths, chunks given by the caller
 	LenOld1
 	LenOld2
 	LenOld4
